@@ -292,3 +292,43 @@ Example C16_set_share_example :
     [CLoad 1; COnce 1 (OAcquire 1); CLoad 2; COnce 1 (ODone 1 1); COnce 2 (OReadClosed 2 1); CDelete 1] = Some st /\
     nget (results st) 1 = Some 1 /\ nget (results st) 2 = Some 1.
 Proof. exact set_share_example. Qed.
+
+(* a recorded concurrent execution that the extracted acceptor accepts (with the
+   observed in-flight entries) is a run of the system; with real fetches only,
+   every delivered token was fetched for the same (registry, scheme, scope key) *)
+Theorem C16_set_accepted_trace :
+  forall tbl tr, set_accepts tbl tr = true ->
+    (forall g, csrc (table_calls tbl g) = None) ->
+    exists st, crun (table_calls tbl) cinit (map fst tr) = Some st /\
+      forall g v, nget (results st) g = Some v -> ck (table_calls tbl v) = ck (table_calls tbl g).
+Proof. exact accepted_trace_same_key. Qed.
+Print Assumptions C16_set_accepted_trace.
+
+(* ================= failed sends: transport errors, cancellation ================= *)
+
+(* for every server behaviour in which sends may get no response (AErr): nothing is
+   sent after such a send (so no secret leaves after a cancellation), and a token
+   fetch that failed or was cancelled leaves the cache exactly as it was *)
+Theorem C16_failed_sends :
+  forall clean cf c rq script,
+    let '(evs, c', r) := do_request clean cf c rq script in
+    stops_after_failure evs /\
+    ((exists s, last evs no_event = (s, AErr) /\ is_reg (s, AErr) = false) -> c' = c) /\
+    ((exists s, last evs no_event = (s, AFail) /\ is_reg (s, AFail) = false) -> c' = c).
+Proof. exact do_request_failures. Qed.
+Print Assumptions C16_failed_sends.
+
+Example C16_failed_send_example :
+  let creds := [(0, mkCred true true false false)] in
+  let ch0 := b "Bearer realm=""https://auth.example/token"",service=""svc0"",scope=""repository:a:pull""" in
+  map (fun o => (map fst (fst o), snd o))
+    (run_model FShared false creds
+       [ (mkReq 0 [] [] BNone, [A401 ch0; AErr; AOk]);          (* the token request is cancelled *)
+         (mkReq 0 [] [] BNone, [A401 ch0; ATok 9; AOk]) ])      (* nothing was cached: full flow again *)
+  = [ ([SReg 0 NoAuth false;
+        SDist 0 (b "https://auth.example/token") (b "svc0") [b "repository:a:pull"] (Some (SUserPass 0))],
+       RErr ETransport);
+      ([SReg 0 NoAuth false;
+        SDist 0 (b "https://auth.example/token") (b "svc0") [b "repository:a:pull"] (Some (SUserPass 0));
+        SReg 0 (ABearer (SIssued 0 9)) true], RResp false) ].
+Proof. vm_compute. reflexivity. Qed.
